@@ -187,7 +187,9 @@ class RefState(object):
         for p, u in sc0.bind.items():
             if u is not AMBIG and uri.startswith(u):
                 own = True
-        if sc0.default not in (None, AMBIG) and self.default_touched.get(s0) and uri.startswith(sc0.default):
+        if sc0.default not in (None, AMBIG) and self.default_touched.get(s0) and uri.startswith(sc0.default) \
+                and ":" not in uri[len(sc0.default):]:
+            # (a bare name cannot contain a colon, so the default namespace cannot carry such a URI)
             own = True
         if own:
             return True
@@ -196,7 +198,8 @@ class RefState(object):
             return False
         scp = self.sc[par]
         cands = [p for p, u in scp.bind.items() if u is not AMBIG and uri.startswith(u)]
-        dflt = scp.default not in (None, AMBIG) and self.default_touched.get(par) and uri.startswith(scp.default)
+        dflt = scp.default not in (None, AMBIG) and self.default_touched.get(par) and uri.startswith(scp.default) \
+            and ":" not in uri[len(scp.default):]
         if not cands and not dflt:
             return False
         # the implementation compacts with one of the parent's namespaces and thereby uses
